@@ -44,11 +44,13 @@ for rnd in ("r2", "r3"):
             verify[rnd + "/" + m.group(1)] = (int(m.group(2)), int(m.group(3)), m.group(4))
 only = sys.argv[1:]
 # regression seeds: the reverse of each fix: commit
+jobs = []
 reg = os.path.join(inc, "regress")
-for name in (sorted(os.listdir(reg)) if os.path.isdir(reg) else []):
+redo = os.environ.get("SEEDS_REDO") == "1"
+
+
+def job_regress(name):
     sid = "regress-" + name
-    if only and sid not in only:
-        continue
     info = json.load(open(os.path.join(reg, name, "info.json")))
     dst = os.path.join(out, sid)
     os.makedirs(dst, exist_ok=True)
@@ -56,15 +58,13 @@ for name in (sorted(os.listdir(reg)) if os.path.isdir(reg) else []):
     rc, kinds = run_check(os.path.join(dst, "patch.diff"), info["property"])
     json.dump({"id": sid, "breaks_property": info["property"], "origin": "reverse of fix: commit %s (ported onto the hook commit where needed)" % info["fix"],
                "needs_to_manifest": info["what"], "confirmed_in_scratch_worktree": "the defect was reproduced against the real code before the fix (DESIGN.md section 0.4); the repository's tests pass with and without the fix",
-               "ran": "tools/run_seeds.py", "check_exit": rc, "detected": rc == 1, "violation_kinds": kinds},
+               "ran": "tools/run_seeds.py -> tools/try_seed_wt.sh", "check_exit": rc, "detected": rc == 1, "violation_kinds": kinds},
               open(os.path.join(dst, "meta.json"), "w"), indent=1)
-    print(sid, rc, kinds[:3], flush=True)
-for prop, mut, rnd, src in seeds:
+    return sid, rc, kinds[:3]
+
+
+def job_seed(prop, mut, rnd, src):
     sid = "%s-%s%s" % (prop, (rnd + "-") if rnd else "", mut)
-    if only and sid not in only:
-        continue
-    if not only and os.path.exists(os.path.join(out, sid, "meta.json")) and os.environ.get("SEEDS_REDO") != "1":
-        continue
     dst = os.path.join(out, sid)
     os.makedirs(dst, exist_ok=True)
     patch = "patch_ported.diff" if os.path.exists(os.path.join(src, "patch_ported.diff")) else "patch.diff"
@@ -76,7 +76,7 @@ for prop, mut, rnd, src in seeds:
             shutil.copy(os.path.join(src, f), os.path.join(dst, f))
     rc, kinds = run_check(os.path.join(dst, "patch.diff"), prop)
     v = verify.get("%s%s/%s" % ((rnd + "/") if rnd else "", prop, mut))
-    notes = open(os.path.join(dst, "notes.md")).read() if os.path.exists(os.path.join(dst, "notes.md")) else ""
+    notes = open(os.path.join(dst, "notes.md"), errors="replace").read() if os.path.exists(os.path.join(dst, "notes.md")) else ""
     meta = {
         "id": sid, "breaks_property": prop, "origin": "independent sub-agent given only the property text and a scratch worktree",
         "needs_to_manifest": notes.strip().split("\n\n")[0][:1500],
@@ -87,4 +87,24 @@ for prop, mut, rnd, src in seeds:
         "check_exit": rc, "detected": rc == 1, "violation_kinds": kinds,
     }
     json.dump(meta, open(os.path.join(dst, "meta.json"), "w"), indent=1)
-    print(sid, rc, kinds[:3], flush=True)
+    return sid, rc, kinds[:3]
+
+
+for name in (sorted(os.listdir(reg)) if os.path.isdir(reg) else []):
+    sid = "regress-" + name
+    if only and sid not in only:
+        continue
+    if not only and not redo and os.path.exists(os.path.join(out, sid, "meta.json")):
+        continue
+    jobs.append((job_regress, (name,)))
+for prop, mut, rnd, src in seeds:
+    sid = "%s-%s%s" % (prop, (rnd + "-") if rnd else "", mut)
+    if only and sid not in only:
+        continue
+    if not only and not redo and os.path.exists(os.path.join(out, sid, "meta.json")):
+        continue
+    jobs.append((job_seed, (prop, mut, rnd, src)))
+from concurrent.futures import ThreadPoolExecutor
+with ThreadPoolExecutor(max_workers=int(os.environ.get("SEEDS_JOBS", "4"))) as ex:
+    for res in ex.map(lambda j: j[0](*j[1]), jobs):
+        print(*res, flush=True)
